@@ -119,7 +119,18 @@ func (t *FnTrans) instr(b *ssa.BasicBlock, idx int, in ssa.Instruction, st *Heap
 	case *ssa.Range:
 		t.setVal(x, unknown(x.Type()))
 	case *ssa.Next:
-		t.setVal(x, t.havocVal(x.Type(), "next"))
+		nv := t.havocVal(x.Type(), "next")
+		t.setVal(x, nv)
+		// ranging over a map: a produced key is present in the map at that moment
+		if rg, ok := x.Iter.(*ssa.Range); ok && !x.IsString && nv.K == VTuple && len(nv.Sub) == 3 {
+			if mt, ok := rg.X.Type().Underlying().(*types.Map); ok {
+				m := t.val(rg.X)
+				if m.K == VScalar && nv.Sub[0].K == VScalar && nv.Sub[1].K == VScalar {
+					_, present := t.mapRead(st, mt, m.S, nv.Sub[1].S, reach)
+					t.assume(reach, implies(nv.Sub[0].S, present), "a key produced by ranging over a map is present in it")
+				}
+			}
+		}
 	case *ssa.MakeClosure:
 		t.setVal(x, Val{K: VFunc, T: x.Type(), Fn: x})
 	case *ssa.MakeChan:
